@@ -234,9 +234,26 @@ func RunGate(sc *SPScenario) (*WireObs, string) {
 	if !s.IsLogged() {
 		return nil, "gate rig: logon did not succeed"
 	}
-	mu.Lock()
-	pre := len(wire)
-	mu.Unlock()
+	countV := func() (nv, na int) {
+		mu.Lock()
+		defer mu.Unlock()
+		for _, w := range wire {
+			if w.Ty == "V" {
+				nv++
+			}
+			if w.Ty == "A" {
+				na++
+			}
+		}
+		return
+	}
+	// IsLogged() turns true before the Logon reply is sent: wait for the reply to be on the wire
+	for i := 0; i < 400; i++ {
+		if _, na := countV(); na >= 1 {
+			break
+		}
+		time.Sleep(5 * time.Millisecond)
+	}
 
 	done := make([]chan struct{}, sc.N)
 	g.mu.Lock()
@@ -329,11 +346,8 @@ func RunGate(sc *SPScenario) (*WireObs, string) {
 			return nil, fmt.Sprintf("gate rig: sender %d did not return", i)
 		}
 	}
-	for i := 0; i < 200; i++ {
-		mu.Lock()
-		n := len(wire)
-		mu.Unlock()
-		if n >= pre+sc.N {
+	for i := 0; i < 600; i++ {
+		if nv, _ := countV(); nv >= sc.N {
 			break
 		}
 		time.Sleep(5 * time.Millisecond)
